@@ -13,6 +13,11 @@ for p in props:
         na.append({"property_id": pid, "reason": "machinery for this property is not built yet (Lean model/theorems + correspondence engine pending; see DESIGN.md §5 %s)" % pid})
         continue
     m = json.load(open(mp))
+    rp = os.path.join(V, "meta", "ready.json")
+    ready = json.load(open(rp)) if os.path.exists(rp) else []
+    if pid not in ready:
+        na.append({"property_id": pid, "reason": "machinery for this property is still being built/validated in this round (see DESIGN.md §5 %s); not claimed until its check passes the unchanged-tree sweeps" % pid})
+        continue
     if m.get("not_applicable"):
         na.append({"property_id": pid, "reason": m["not_applicable"]})
         continue
